@@ -1,4 +1,4 @@
-import C2paModel.Lemmas.C07Png
+import C2paModel.Props.C07
 /-
 C08 — same-size manifest replacement only changes the reported manifest region.
 
@@ -9,6 +9,28 @@ outside that region.
 
 Layer A, for every container, store and format instance: the Cai region of `writeA F c s`
 is `[caiOff F c, caiOff F c + |wrap s|)`.
+
+Scope of the locality theorems. `same_size_patch_local` is about layer-A writers (`Fmt`), whose
+bytes before and after the manifest container do not depend on the store at all. Real formats
+with offset tables (TIFF IFD offsets, BMFF `stco`/`iloc`) re-lay-out their surroundings
+depending on the container's *length*. `Layout` / `layout_same_size_patch_local` generalise
+the theorem to every writer of the form `pre n ++ wrap s ++ post n` with `n = |wrap s|`
+(surroundings may depend on the length, not on the content); `ser_writeA_eq_layout` shows the
+`Fmt` case is the instance with constant `pre` / `post`. The hypothesis cannot be dropped:
+`content_dependent_prefix_not_local` exhibits a writer whose prefix depends on the store
+content and which changes a byte outside the manifest region. That a given real handler *is*
+of the `Layout` form is a per-format obligation. It is discharged for PNG
+(`Png.write_is_layout`, through the commuting square `Png.write_refines`) and for the sidecar
+(trivially: no regions); for the other formats the property is observed, not proved, by the
+differential harness's same-size patch checks.
+
+Statements about the byte-exact handler model (section "PNG, byte-exact layer B" below):
+`Png.locations_write_wf` (what `get_object_locations_from_stream` reports after `write_cai`:
+the region holding the caBX chunk, inside the file, the store at offset 8 in it),
+`Png.locations_eq_locsOf` (the commuting square with the layer-A regions),
+`Png.same_size_rewrite_local` (the second, same-size `write_cai` on the embedded asset — the
+existing-manifest splice branch — changes no byte outside the reported region and does not
+move it), `Png.locations_fresh` (the placeholder regions reported without a manifest).
 -/
 namespace C2pa.C07
 
@@ -109,7 +131,155 @@ theorem cai_region_stable (F : Fmt) (c : List Seg) (s₁ : Bytes)
   unfold caiOff
   rw [strip_writeA, hpos]
 
-/-! ### PNG (byte-exact layer B): equal store lengths suffice -/
+/-! ### length-dependent layouts -/
+
+/-- A writer whose output is `pre n ++ wrap s ++ post n` with `n = |wrap s|`: the bytes around
+the manifest container may depend on the container's length (offset tables, IFD counts, size
+fields) but not on its content. -/
+structure Layout where
+  wrap : Bytes → Bytes
+  pre : Nat → Bytes
+  post : Nat → Bytes
+
+def Layout.write (L : Layout) (s : Bytes) : Bytes :=
+  L.pre (L.wrap s).length ++ L.wrap s ++ L.post (L.wrap s).length
+
+def Layout.off (L : Layout) (s : Bytes) : Nat := (L.pre (L.wrap s).length).length
+
+/-- The region `[off, off + |wrap s|)` lies in the written file and holds exactly the wrapped
+store. -/
+theorem layout_region_wf (L : Layout) (s : Bytes) :
+    L.off s + (L.wrap s).length ≤ (L.write s).length ∧
+    slice (L.write s) (L.off s) (L.wrap s).length = L.wrap s ∧
+    (L.write s).length = L.off s + (L.wrap s).length + (L.post (L.wrap s).length).length := by
+  refine ⟨?_, slice_mid _ _ _, ?_⟩ <;>
+    simp only [Layout.write, Layout.off, List.length_append] <;> omega
+
+/-- **layout_same_size_patch_local**: for a writer whose surroundings depend on the manifest
+container only through its *length* (TIFF IFD offsets, BMFF `stco`/`iloc` fix-ups, RIFF size
+fields, …), two stores whose wrappings have the same length give files of the same length,
+with the manifest region at the same offset, that agree on every byte outside that region.
+`same_size_patch_local` is the instance with constant `pre` / `post` (`ser_writeA_eq_layout`). -/
+theorem layout_same_size_patch_local (L : Layout) (s₁ s₂ : Bytes)
+    (hlen : (L.wrap s₁).length = (L.wrap s₂).length) :
+    let o₁ := L.write s₁
+    let o₂ := L.write s₂
+    let off := L.off s₁
+    let len := (L.wrap s₁).length
+    o₁.length = o₂.length ∧ L.off s₁ = L.off s₂ ∧
+    o₁.take off = o₂.take off ∧ o₁.drop (off + len) = o₂.drop (off + len) ∧
+    ∀ j, (j < off ∨ off + len ≤ j) → o₁[j]? = o₂[j]? := by
+  intro o₁ o₂ off len
+  have h1 : o₁ = L.pre len ++ L.wrap s₁ ++ L.post len := rfl
+  have h2 : o₂ = L.pre len ++ L.wrap s₂ ++ L.post len := by
+    show L.write s₂ = _
+    unfold Layout.write; rw [← hlen]
+  have hoff : off = (L.pre len).length := rfl
+  have hoff2 : L.off s₁ = L.off s₂ := by unfold Layout.off; rw [hlen]
+  have ht : o₁.take off = o₂.take off := by
+    rw [h1, h2, hoff, take_pre, take_pre]
+  have hd : o₁.drop (off + len) = o₂.drop (off + len) := by
+    have e1 : o₁.drop (off + len) = L.post len := by
+      rw [h1, hoff]; exact drop_post _ _ _
+    have e2 : o₂.drop (off + len) = L.post len := by
+      rw [h2, hoff]; show List.drop (_ + (L.wrap s₁).length) _ = _
+      rw [hlen]; exact drop_post _ _ _
+    rw [e1, e2]
+  refine ⟨by rw [h1, h2]; simp [hlen], hoff2, ht, hd, ?_⟩
+  intro j hj
+  rcases hj with hj | hj
+  · have a1 : (o₁.take off)[j]? = o₁[j]? := by rw [List.getElem?_take]; simp [hj]
+    have a2 : (o₂.take off)[j]? = o₂[j]? := by rw [List.getElem?_take]; simp [hj]
+    rw [← a1, ← a2, ht]
+  · obtain ⟨k, rfl⟩ : ∃ k, j = off + len + k := ⟨j - (off + len), by omega⟩
+    have a1 : (o₁.drop (off + len))[k]? = o₁[off + len + k]? := List.getElem?_drop
+    have a2 : (o₂.drop (off + len))[k]? = o₂[off + len + k]? := List.getElem?_drop
+    rw [← a1, ← a2, hd]
+
+/-- In-place patching of the manifest region with the new wrapped store of the same length is
+the same as writing the new store, also when the surroundings depend on that length. -/
+theorem layout_patch_eq_write (L : Layout) (s₁ s₂ : Bytes)
+    (hlen : (L.wrap s₁).length = (L.wrap s₂).length) :
+    patchA (L.write s₁) (L.off s₁) (L.wrap s₂) = L.write s₂ := by
+  unfold patchA Layout.write Layout.off
+  rw [take_pre, ← hlen, drop_post]
+
+/-- A layer-A format on a given input container is a layout with constant surroundings. -/
+def Fmt.layout (F : Fmt) (c : List Seg) : Layout :=
+  ⟨F.wrap, fun _ => ser ((strip c).take (insIdx F c)), fun _ => ser ((strip c).drop (insIdx F c))⟩
+
+theorem ser_writeA_eq_layout (F : Fmt) (c : List Seg) (s : Bytes) :
+    ser (writeA F c s) = (F.layout c).write s := ser_writeA F c s
+
+theorem caiOff_eq_layout_off (F : Fmt) (c : List Seg) (s : Bytes) :
+    caiOff F c = (F.layout c).off s := rfl
+
+/-- `same_size_patch_local` re-derived as the constant-surroundings instance of
+`layout_same_size_patch_local`. -/
+theorem same_size_patch_local_of_layout (F : Fmt) (c : List Seg) (s₁ s₂ : Bytes)
+    (hlen : (F.wrap s₁).length = (F.wrap s₂).length) :
+    (ser (writeA F c s₁)).length = (ser (writeA F c s₂)).length ∧
+    ∀ j, (j < caiOff F c ∨ caiOff F c + (F.wrap s₁).length ≤ j) →
+      (ser (writeA F c s₁))[j]? = (ser (writeA F c s₂))[j]? := by
+  obtain ⟨h1, _, _, _, h5⟩ := layout_same_size_patch_local (F.layout c) s₁ s₂ hlen
+  rw [ser_writeA_eq_layout, ser_writeA_eq_layout]
+  exact ⟨h1, h5⟩
+
+/-! ### non-vacuity: a genuinely length-dependent layout -/
+
+/-- One-byte "offset field" in front (holding the container length), the container, and a
+trailer whose length depends on the container length (padding to even + a length byte). -/
+def exLayout : Layout :=
+  ⟨fun s => 0xC2 :: s, fun n => [0xAA, UInt8.ofNat n], fun n => List.replicate (n % 2) 0 ++ [UInt8.ofNat n]⟩
+
+example : exLayout.write [1, 2] = [0xAA, 3, 0xC2, 1, 2, 0, 3] := by decide
+example : exLayout.write [1, 2, 3] = [0xAA, 4, 0xC2, 1, 2, 3, 4] := by decide
+/-- the surroundings do change with the length … -/
+example : (exLayout.write [1, 2]).take 2 ≠ (exLayout.write [1, 2, 3]).take 2 := by decide
+/-- … and same-length stores differ only inside `[off, off + len) = [2, 5)`. -/
+example : exLayout.write [9, 8] = [0xAA, 3, 0xC2, 9, 8, 0, 3] ∧ exLayout.off [9, 8] = 2 := by decide
+example : patchA (exLayout.write [1, 2]) (exLayout.off [1, 2]) (exLayout.wrap [9, 8])
+    = exLayout.write [9, 8] := by decide
+
+/-! ### the converse warning: content-dependent surroundings are not local -/
+
+/-- A writer that puts a checksum of the store in front of it (a prefix that depends on the
+store's *content*, e.g. a container-level CRC or a digest field outside the reported region). -/
+def exChecksumWriter (s : Bytes) : Bytes := s.foldl (· + ·) 0 :: 0xC2 :: s
+
+/-- **Not every writer is local.** For a writer whose prefix depends on the store content,
+two stores of the same length give files of the same length whose manifest region is
+`[off, off + len) = [1, 1 + (|s| + 1))` in both, and yet byte 0 — outside that region —
+differs. The hypothesis "surroundings depend on the length only" of
+`layout_same_size_patch_local` is therefore needed; each format has to establish it. -/
+theorem content_dependent_prefix_not_local :
+    ∃ (w : Bytes → Bytes) (s₁ s₂ : Bytes) (off len j : Nat),
+      s₁.length = s₂.length ∧ (w s₁).length = (w s₂).length ∧
+      slice (w s₁) off len = 0xC2 :: s₁ ∧ slice (w s₂) off len = 0xC2 :: s₂ ∧
+      (j < off ∨ off + len ≤ j) ∧ (w s₁)[j]? ≠ (w s₂)[j]? :=
+  ⟨exChecksumWriter, [1], [2], 1, 2, 0, by decide⟩
+
+/-- Such a writer is not of the `Layout` form with the same wrapping. -/
+theorem checksum_writer_not_layout :
+    ¬ ∃ L : Layout, L.wrap = (fun s => 0xC2 :: s) ∧ ∀ s, L.write s = exChecksumWriter s := by
+  rintro ⟨L, hw, h⟩
+  have e1 : L.pre 2 ++ [0xC2, 1] ++ L.post 2 = [1, 0xC2, 1] := by
+    have := h [1]; rw [Layout.write, hw] at this; exact this
+  have e2 : L.pre 2 ++ [0xC2, 2] ++ L.post 2 = [2, 0xC2, 2] := by
+    have := h [2]; rw [Layout.write, hw] at this; exact this
+  cases hp : L.pre 2 with
+  | nil =>
+    rw [hp] at e1
+    have := (List.cons.inj e1).1
+    exact absurd this (by decide)
+  | cons a p =>
+    rw [hp] at e1 e2
+    have a1 : a = 1 := (List.cons.inj e1).1
+    have a2 : a = 2 := (List.cons.inj e2).1
+    rw [a1] at a2
+    exact absurd a2 (by decide)
+
+/-! ### PNG (layer A instance): equal store lengths suffice -/
 
 theorem png_same_size_patch_local (c : List Seg) (s₁ s₂ : Bytes) (h : s₁.length = s₂.length) :
     let o₁ := ser (writeA Png.fmt c s₁)
@@ -132,7 +302,89 @@ theorem png_cai_contains_store (c : List Seg) (s : Bytes) :
     (Png.wrap_shape s)
   simpa [Png.be32_length, Png.caBX_length] using this
 
+/-! ### PNG, byte-exact layer B (`Png.write`, `Png.locations`, `Png.patch`) -/
+
+namespace Png
+
+/-- **What the PNG handler reports after a write**: one Cai region `[off, off+|s|+12)` and the
+two Other regions around it (`locA`), the Cai region lies in the file, holds exactly the caBX
+chunk `wrap s`, and the store sits at offset 8 in it. `off` is the layer-A Cai offset. -/
+theorem locations_write_wf {b s o : Bytes} {c : List Seg} (h : segs b = some c)
+    (h1 : (manifests c).length ≤ 1) (hs : s.length < 4294967296) (hw : write b s = some o) :
+    ∃ off, locations o = some (locA off (s.length + 12) o.length) ∧ off = caiOff fmt c ∧
+      off + (s.length + 12) ≤ o.length ∧ slice o off (s.length + 12) = wrap s ∧
+      slice o (off + 8) s.length = s := by
+  have ho := write_refines h h1 hs hw
+  have hwl : (fmt.wrap s).length = s.length + 12 := wrap_length s
+  obtain ⟨hin, hsl, _⟩ := locations_wf fmt c s
+  refine ⟨caiOff fmt c, locations_write h h1 hs hw, rfl, ?_, ?_, ?_⟩
+  · rw [ho, ← hwl]; exact hin
+  · rw [ho, ← hwl]; exact hsl
+  · rw [ho]; exact png_cai_contains_store c s
+
+/-- The commuting square for object locations, in the vocabulary of this file. -/
+theorem locations_eq_locsOf {b s o : Bytes} {c : List Seg} (h : segs b = some c)
+    (h1 : (manifests c).length ≤ 1) (hs : s.length < 4294967296) (hw : write b s = some o) :
+    locations o = some (locsOf fmt c s) := by
+  rw [locations_write h h1 hs hw, write_refines h h1 hs hw]
+  show _ = some (locA _ (wrap s).length _)
+  rw [wrap_length]
+
+/-- **Same-size second write on the embedded asset** (the sign-then-patch flow; exercises
+the existing-manifest branch of `write_cai`): the file length and the reported regions do
+not change, no byte outside the reported Cai region changes, and the result is the file a
+direct write of the second store would have produced. -/
+theorem same_size_rewrite_local {b s₁ s₂ o₁ o₂ : Bytes} {c : List Seg} {off len : Nat}
+    {rest : List Loc} (hlen : s₁.length = s₂.length) (h : segs b = some c)
+    (h1 : (manifests c).length ≤ 1) (hs₁ : s₁.length < 4294967296)
+    (hw₁ : write b s₁ = some o₁) (hw₂ : patch o₁ s₂ = some o₂)
+    (hl : locations o₁ = some (⟨off, len, true⟩ :: rest)) :
+    o₂.length = o₁.length ∧ locations o₂ = locations o₁ ∧
+    (∀ j, (j < off ∨ off + len ≤ j) → o₁[j]? = o₂[j]?) ∧ write b s₂ = some o₂ := by
+  have hs₂ : s₂.length < 4294967296 := by omega
+  obtain ⟨hwd, _, _⟩ := write_write_bytes h h1 hs₁ hs₂ hw₁ hw₂
+  have ho₁ := write_refines h h1 hs₁ hw₁
+  have ho₂ := write_refines h h1 hs₂ hwd
+  have hloc₁ := locations_write h h1 hs₁ hw₁
+  have hloc₂ := locations_write h h1 hs₂ hwd
+  rw [hloc₁] at hl
+  injection hl with hl
+  have hoff : caiOff fmt c = off := by
+    have := (List.cons.inj hl).1; injection this
+  have hlen' : s₁.length + 12 = len := by
+    have := (List.cons.inj hl).1; injection this
+  obtain ⟨e1, e2⟩ := png_same_size_patch_local c s₁ s₂ hlen
+  have hl12 : o₂.length = o₁.length := by rw [ho₁, ho₂]; exact e1.symm
+  refine ⟨hl12, ?_, ?_, hwd⟩
+  · rw [hloc₁, hloc₂, hl12, hlen]
+  · intro j hj
+    rw [ho₁, ho₂]
+    apply e2
+    rw [hoff, hlen']; exact hj
+
+/-- **PNG is of `Layout` form**: for a fixed input file, the bytes `write_cai` puts around the
+caBX chunk do not depend on the store at all. -/
+theorem write_is_layout {b : Bytes} {c : List Seg} (h : segs b = some c)
+    (h1 : (manifests c).length ≤ 1) :
+    ∃ L : Layout, L.wrap = wrap ∧
+      ∀ s o, s.length < 4294967296 → write b s = some o → o = L.write s ∧ L.off s = caiOff fmt c :=
+  ⟨fmt.layout c, rfl, fun s _ hs hw =>
+    ⟨(write_refines h h1 hs hw).trans (ser_writeA_eq_layout fmt c s),
+      (caiOff_eq_layout_off fmt c s).symm⟩⟩
+
+end Png
+
+/-- The sidecar handler reports no regions (the whole file is the container), and a second
+write replaces the whole file: locality is vacuous. -/
+theorem sidecar_locations (b : Bytes) : Sidecar.locations b = some [] := rfl
+
 /-! ### non-vacuity -/
+
+example : (Png.write exPng [1, 2, 3]).bind Png.locations
+    = some [⟨20, 15, true⟩, ⟨0, 20, false⟩, ⟨35, 27, false⟩] := by decide
+example : ((Png.write exPng [1, 2, 3]).bind (Png.patch · [7, 8, 9])).bind Png.locations
+    = some [⟨20, 15, true⟩, ⟨0, 20, false⟩, ⟨35, 27, false⟩] := by decide
+example : Png.locations exPng = some [⟨20, 12, true⟩, ⟨0, 20, false⟩, ⟨32, 27, false⟩] := by decide
 
 def exFmt8 : Fmt := ⟨fun s => 7 :: s, fun w => w.tail?, fun _ => 1⟩
 
